@@ -323,9 +323,11 @@ func handlers() []fh {
 		{"Proto", hlog.ProtoHandler("proto"), "proto", func(i int) string { return fmt.Sprintf("HTTP/1.%d", i) }},
 		{"HTTPVersion", hlog.HTTPVersionHandler("ver"), "ver", func(i int) string { return fmt.Sprintf("1.%d", i) }},
 		{"CustomHeader", hlog.CustomHeaderHandler("custom", "X-Custom"), "custom", func(i int) string { return fmt.Sprintf("custom-%d", i) }},
+		// header names are case-insensitive: a name configured in another spelling finds the same header
+		{"CustomHeaderLC", hlog.CustomHeaderHandler("customlc", "x-cUSTOM"), "customlc", func(i int) string { return fmt.Sprintf("custom-%d", i) }},
 		{"Host", hlog.HostHandler("host"), "host", func(i int) string { return fmt.Sprintf("host%d.example:80%d", i, i) }},
 		{"HostTrim", hlog.HostHandler("hostt", true), "hostt", func(i int) string { return fmt.Sprintf("host%d.example", i) }},
-		{"RequestID", hlog.RequestIDHandler("req_id", "X-Req-Id"), "req_id", func(i int) string { return "*" }},
+		{"RequestID", hlog.RequestIDHandler("req_id", "x-req-ID"), "req_id", func(i int) string { return "*" }},
 	}
 }
 
@@ -720,7 +722,7 @@ func factory(name string) *explore.Scenario {
 // racePass: concurrent requests on real goroutines under -race.
 func racePass() {
 	runs := 0
-	for _, sel := range [][]string{{"URL", "Method", "RequestID"}, {"RemoteAddr", "UserAgent", "CustomHeader"}, {"Request", "RemoteIP", "Referer"}, {"Proto", "HTTPVersion", "Host", "HostTrim"}, {"ACCESS"}} {
+	for _, sel := range [][]string{{"URL", "Method", "RequestID"}, {"RemoteAddr", "UserAgent", "CustomHeader", "CustomHeaderLC"}, {"Request", "RemoteIP", "Referer"}, {"Proto", "HTTPVersion", "Host", "HostTrim"}, {"ACCESS"}} {
 		for rep := 0; rep < 200; rep++ {
 			var mu sync.Mutex
 			w := &lockedLines{mu: &mu}
